@@ -76,7 +76,17 @@ def _docs():
     def d1():
         return Document(name="D2", sections=[Assignment(key="ONLY", value="1")])
 
-    return [d0, d1]
+    def d2():
+        from harness import docmodel as dm
+
+        return dm.shape_rich()  # every value kind and position, all four comment kinds incl. document-trailing comments
+
+    def d3():
+        from harness import docmodel as dm
+
+        return dm.shape_deep()
+
+    return [d0, d1, d2, d3]
 
 
 def _mutations(doc):
@@ -113,13 +123,56 @@ def _mutations(doc):
         if getattr(c, "key", "") == "SEAL":
             continue
         muts.append((f"container{ci}:insert-child", lambda d, ci=ci: containers(d.sections, [])[ci].children.append(Assignment(key="NEWC", value=1))))
-        muts.append((f"container{ci}:delete-child", lambda d, ci=ci: containers(d.sections, [])[ci].children.pop(0)))
+        if c.children:
+            muts.append((f"container{ci}:delete-child", lambda d, ci=ci: containers(d.sections, [])[ci].children.pop(0)))
         muts.append((f"container{ci}:rename", lambda d, ci=ci: setattr(containers(d.sections, [])[ci], "key", "RENAMEDC")))
     if any(isinstance(s, Block) for s in doc.sections):
         def move(d):
             first = d.sections.pop(0)
             [s for s in d.sections if isinstance(s, Block)][0].children.insert(0, first)
         muts.append(("move-top-into-block", move))
+    # pure re-nesting: the order of lines stays, only the depth of one node changes
+    def real(d):
+        return [x for x in d.sections if getattr(x, "key", "") != "SEAL"]
+
+    for ci, c in enumerate(containers(real(doc), [])):
+        if c.children:
+            def lift_last(d, ci=ci):
+                # last child of container ci becomes its next sibling (one level up)
+                def walk(nodes):
+                    seen = [0]
+
+                    def rec(parent_list):
+                        for idx, n in enumerate(list(parent_list)):
+                            if hasattr(n, "children") and getattr(n, "key", "") != "SEAL":
+                                if seen[0] == ci:
+                                    child = n.children.pop()
+                                    parent_list.insert(idx + 1, child)
+                                    return True
+                                seen[0] += 1
+                                if rec(n.children):
+                                    return True
+                        return False
+
+                    return rec(nodes)
+
+                walk(d.sections)
+
+            muts.append((f"container{ci}:lift-last-child", lift_last))
+    tops = real(doc)
+    for ti in range(1, len(tops)):
+        if hasattr(tops[ti - 1], "children") and not hasattr(tops[ti], "section_id"):
+            def sink(d, ti=ti):
+                # top-level node ti becomes the last child of the container just before it (one level down)
+                r = real(d)
+                node = r[ti]
+                d.sections.remove(node)
+                tgt = r[ti - 1]
+                while tgt.children and hasattr(tgt.children[-1], "children"):
+                    tgt = tgt.children[-1]
+                tgt.children.append(node)
+
+            muts.append((f"top{ti}:sink-into-previous-container", sink))
     muts.append(("envelope-name", lambda d: setattr(d, "name", d.name + "X")))
     muts.append(("meta-add", lambda d: d.meta.__setitem__("EXTRA", 1)))
     if doc.meta:
@@ -142,7 +195,7 @@ def _mutations(doc):
 
 def T_tamper(di: int, mi: int, via_text: bool) -> int:
     """
-    pre: 0 <= di <= 1 and 0 <= mi <= 60
+    pre: di == DIFIX and 0 <= mi <= 150
     post: _ != 0
     """
     from crosshair.core import realize
@@ -180,6 +233,59 @@ def T_tamper(di: int, mi: int, via_text: bool) -> int:
         return HELD if st is sealer.SealStatus.INVALID else VIOL
 
 
+def H_hash_distinguishes_depth_and_text(k1: int, k2: int, ai: int, bi: int, via_verify: bool) -> int:
+    """
+    pre: 0 <= k1 <= 3 and 0 <= k2 <= 3 and 0 <= ai <= 5 and 0 <= bi <= 5 and not via_verify
+    post: _ != 0
+    """
+    # what is fed to the hash function determines depth and text of every line: for the family of canonical texts
+    #   "B:" / <2*k spaces><text>  the hashed bytes of (k1, a) and (k2, b) are equal only if k1 == k2 and a == b.
+    # hashlib is replaced in the sealer's namespace by a recording stub (injective by construction), so this is a
+    # statement about what the sealer does to the content BEFORE hashing (trimming, re-indenting, normalising).
+    from types import SimpleNamespace
+
+    from crosshair.core import realize
+    from octave_mcp.core import sealer
+
+    k1, k2, ai, bi = realize(k1), realize(k2), realize(ai), realize(bi)
+    pool = ["", "x", " ", "\t", "x ", "\u212b"]
+    a, b = pool[ai], pool[bi]
+    rec = []
+
+    class H:
+        def __init__(self, data=b""):
+            rec.append(data)
+
+        def hexdigest(self):
+            return "0" * 64
+
+    if "\n" in a or "\n" in b or "\r" in a or "\r" in b:
+        return SKIP
+    real = sealer.hashlib
+    sealer.hashlib = SimpleNamespace(sha256=H)
+    try:
+        t1 = "===D===\nB:\n" + "  " * k1 + "K" + a + "::1\n===END===\n"
+        t2 = "===D===\nB:\n" + "  " * k2 + "K" + b + "::1\n===END===\n"
+        sealer.compute_seal(t1, None)
+        sealer.compute_seal(t2, None)
+    finally:
+        sealer.hashlib = real
+    if len(rec) != 2:
+        return VIOL
+    same_in = k1 == k2 and a == b
+    same_hashed = rec[0] == rec[1]
+    return HELD if same_in == same_hashed else VIOL
+
+
+def _tamper_for(di):
+    import types
+
+    f = types.FunctionType(T_tamper.__code__, T_tamper.__globals__, "T_tamper", None, T_tamper.__closure__)
+    f.__doc__ = T_tamper.__doc__.replace("DIFIX", str(di))
+    f.__annotations__ = dict(T_tamper.__annotations__)
+    return f
+
+
 RESPELL = [
     lambda t: t,
     lambda t: t.replace("===END===\n", ""),
@@ -214,7 +320,11 @@ def obligations(tier):
     sf = ["core.sealer.seal_document", "verify_seal", "extract_seal", "_remove_seal_section", "compute_seal", "emitter.emit"]
     obs = [
         rx_ob(PROP, "RX.scalar-emissions-pairwise-disjoint", build_injective, bound="all texts of any length: bare strings (language derived from the live needs_quotes), quoted strings, int and finite float texts, true/false/null, bracket and fence openers", functions=["emitter.emit_value", "emitter.needs_quotes"]),
-        xh_ob(PROP, "T.every-single-site-mutation-invalidates", T_tamper, timeout=1500, bound="2 documents (rich: META, frontmatter, separator, nested blocks, section with annotation, lists, inline map; minimal) x every mutation of the catalogue (4 value replacements incl. type-only change and rename per leaf; insert/delete/swap/move nodes; per-container insert/delete/rename; envelope name; META add/change/delete; frontmatter; separator; one hash character) x in memory / through emit+parse", functions=sf + ["parser.parse"]),
+    ] + [
+        xh_ob(PROP, f"T.every-single-site-mutation-invalidates[doc{di}]", _tamper_for(di), timeout=1500, bound="4 documents (both content models of docmodel: every value kind and position, all comment kinds; rich: META, frontmatter, separator, nested blocks, section with annotation, lists, inline map; minimal) x every mutation of the catalogue (4 value replacements incl. type-only change and rename per leaf; insert/delete/swap/move nodes; pure re-nesting that keeps the line order (last child lifted one level, top-level node sunk into the preceding container); per-container insert/delete/rename; envelope name; META add/change/delete; frontmatter; separator; one hash character) x in memory / through emit+parse", functions=sf + ["parser.parse"])
+        for di in range(4)
+    ] + [
+        xh_ob(PROP, "H.hashed-bytes-determine-depth-and-text", H_hash_distinguishes_depth_and_text, timeout=900, bound="two canonical texts 'B:' + one child line at solver-chosen depth 0..3 and key suffix from a 6-text pool (empty, letter, space, tab, trailing space, non-NFC character): one concrete run per choice; hashlib replaced by a recording stub", functions=["core.sealer.compute_seal"], stubs=["sealer.hashlib.sha256 -> recording stub (injective by construction)"]),
         xh_ob(PROP, "T.cosmetic-respelling-still-verifies", T_cosmetic, timeout=600, bound="7 cosmetic rewrites of the sealed text (missing END, spaces around ::, 4-space indentation, spaced/blank-lined lists, blank lines, triple quotes)", functions=sf + ["parser.parse_with_warnings"]),
     ]
     return select(obs, tier)
